@@ -17,6 +17,7 @@
 
 import asyncio
 import contextvars
+import decimal
 import json
 import logging
 import random
@@ -814,6 +815,9 @@ def parse(text: BytesIO, props: list[str], lists: list[str] = None, objects: lis
     in_object = None
     try:
         for prefix, event, value in parser:
+            if isinstance(value, decimal.Decimal):
+                # ijson reports numbers with a fraction or an exponent as Decimal. Parsing the same document completely yields a float.
+                value = float(value)
             if expect_end_array:
                 # True if the list is empty, False otherwise
                 parsed_lists[current_list] = event == "end_array"
